@@ -264,8 +264,9 @@ def check(ctx):
                                   "the new exception carries a message as args[0] and no errno: the stack above no longer "
                                   "recognises transient destination errors or connection loss and treats them as fatal")
     ctx.floor("D8-reraise:raises", nre, 8)
-    from .c35 import deferred_requeued
+    from .c35 import deferred_requeued, datagram_send_reraises
     deferred_requeued(ctx, "T6-dgram")
+    datagram_send_reraises(ctx, "T6-dgram")
     ctx.floor("handlers", handlers, 11)
     found = defects.run(ctx.repo, [ctx.cls(m, c).own_method(x) for m, c, _ in STREAM for x in ("receive", "send")] +
                         [G.own_method("_serviceOneTxPkt"), G.own_method("_serviceOneReceived")], ("D8", "D1"))
